@@ -58,7 +58,16 @@ def seed_configs(oport):
         "metrics": {"bind": "127.0.0.1:1", "ui": None, "historySize": 10, "apiPrefix": "/api", "cors": "*"},
         "accessLog": {"path": "access.log", "format": {"script": "`${request.listener} ${request.source} ${request.target} ${request.feature}`"}},
     }
-    return [("shipped", shipped), ("small", small)]
+    # the transparent-proxy listeners of the shipped file (they load without privileges; whether they can be started depends on them)
+    tproxy = {
+        "apiVersion": "v1alpha", "kind": "ProxyDefinition",
+        "listeners": [{"name": "tproxy", "type": "tproxy", "bind": "127.0.0.1:8"},
+                      {"name": "tproxy-udp", "type": "tproxy", "bind": "127.0.0.1:9", "protocol": "udp", "udpFullCone": False, "maxUdpSocket": 128},
+                      {"name": "http", "bind": "127.0.0.1:3"}],
+        "connectors": [{"name": "direct"}],
+        "rules": [{"target": "direct"}],
+    }
+    return [("shipped", shipped), ("small", small), ("tproxy", tproxy)]
 
 
 def paths(node, prefix=()):
@@ -108,7 +117,7 @@ def structural_mutants(rng, name, doc, limit):
             parent.append(copy.deepcopy(parent[path[-1]]))
             out.append(("%s: duplicate %s" % (name, "/".join(map(str, path))), d, "duplicate"))
     # the small top-level sections that are only used when the proxy really runs are always mutated completely; the rest is sampled
-    always = [m for m in out if any((": %s/" % sec) in m[0] or (": delete %s" % sec) in m[0] for sec in ("metrics", "accessLog", "timeouts", "ioParams"))]
+    always = [m for m in out if name == "tproxy" or any((": %s/" % sec) in m[0] or (": delete %s" % sec) in m[0] for sec in ("metrics", "accessLog", "timeouts", "ioParams"))]
     rest = [m for m in out if m not in always]
     rng.shuffle(rest)
     return always + rest[:limit]
@@ -284,7 +293,7 @@ async def probe_started(out, binary, wd, idx, desc, doc, oport, cls):
 
 
 async def main(args):
-    out = Out("C18", "c18", "configuration documents obtained from two valid seeds (an equivalent of the shipped config.yaml and a small harness config) by deleting / retyping (19 replacement values) / duplicating every field, plus targeted mutants: listener/connector type and name, duplicate names, balancer graphs (empty, missing, self, cycles, diamond), rule filters (syntax, type, arity, tuple index, run-time errors, nesting depth 10..100000), access-log formats, TLS material; each judged by `redproxy-rs --test`; accepted ones started and probed; arbitrary JSON posted to /api/rules. distinct = distinct mutants")
+    out = Out("C18", "c18", "configuration documents obtained from three valid seeds (an equivalent of the shipped config.yaml, a small harness config, and the shipped file's transparent-proxy listeners) by deleting / retyping (19 replacement values) / duplicating every field, plus targeted mutants: listener/connector type and name, duplicate names, balancer graphs (empty, missing, self, cycles, diamond), rule filters (syntax, type, arity, tuple index, run-time errors, nesting depth 10..100000), access-log formats, TLS material; each judged by `redproxy-rs --test`; accepted ones started and probed; arbitrary JSON posted to /api/rules. distinct = distinct mutants")
     rng = random.Random(args.seed)
     wd = workdir("c18")
     origin = await TcpOrigin(echo_handler, host="127.0.0.1").start()
@@ -322,10 +331,16 @@ async def main(args):
                 out.violation("--test does not terminate within 30 s [%s]" % cls, {"mutation": desc})
             else:
                 sig = -rc if isinstance(rc, int) and rc < 0 else rc
-                what = "stack overflow" if "overflow" in err else "panic" if "panicked" in err else "signal"
+                what = "stack overflow" if "overflowed its stack" in err else "panic" if "panicked" in err else "signal"
                 site = ""
                 if "panicked at" in err:
-                    site = err.split("panicked at", 1)[1].strip().split(":")[0][:60]
+                    site = err.split("panicked at", 1)[1].strip().split(":")[0]
+                    # a stable, short location: crate-relative for the repository, "<crate>/src/.." for dependencies
+                    if "/src/" in site and "/registry/" in site:
+                        site = site.rsplit("/", 3)[-3].rsplit("-", 1)[0] + "/src/" + site.split("/src/", 1)[1]
+                    elif site.startswith("/rustc/"):
+                        site = "std:" + site.split("/library/", 1)[-1]
+                    site = site[:60]
                 out.violation("loading a bad configuration crashes the process instead of reporting an error [%s] (%s%s)" % (cls, what, (" " + site) if site else ""),
                               {"mutation": desc, "exit": rc, "signal": sig, "stderr": err[-300:]})
             if out_samples_wanted(out) and cls != "seed":
